@@ -50,6 +50,7 @@ type Ctx struct {
 	escCache    map[string][]escLine
 	thorough    bool
 	gwMemo      map[*ssa.Global]bool
+	ExpandNotes []string        // what the helper expansion did (inline.go)
 	poolNewFns  []*ssa.Function // New functions of the sync.Pools met by rule E2 (filled by poolNewType)
 }
 
@@ -78,24 +79,83 @@ func Load(repo, goarch string) (*Ctx, error) {
 		return nil, fmt.Errorf("no packages loaded from %s", repo)
 	}
 	c := &Ctx{Repo: repo, GOARCH: goarch, ByPath: map[string]*packages.Package{}, SSA: map[string]*ssa.Package{}, fileSrc: map[string][]byte{}}
-	var errs []string
-	packages.Visit(pkgs, nil, func(p *packages.Package) {
-		c.ByPath[p.PkgPath] = p
-		for _, e := range p.Errors {
-			errs = append(errs, p.PkgPath+": "+e.Error())
+	collect := func(pkgs []*packages.Package) (map[string]*packages.Package, []*packages.Package, []string) {
+		by := map[string]*packages.Package{}
+		var mod []*packages.Package
+		var errs []string
+		packages.Visit(pkgs, nil, func(p *packages.Package) {
+			by[p.PkgPath] = p
+			for _, e := range p.Errors {
+				errs = append(errs, p.PkgPath+": "+e.Error())
+			}
+		})
+		for _, p := range pkgs {
+			if p.PkgPath == modPath || strings.HasPrefix(p.PkgPath, modPath+"/") {
+				mod = append(mod, p)
+			}
 		}
-	})
+		return by, mod, errs
+	}
+	by, mod, errs := collect(pkgs)
 	if len(errs) > 0 {
 		return nil, fmt.Errorf("type/load errors:\n  %s", strings.Join(errs, "\n  "))
 	}
-	for _, p := range pkgs {
-		if p.PkgPath == modPath || strings.HasPrefix(p.PkgPath, modPath+"/") {
-			c.Pkgs = append(c.Pkgs, p)
-		}
-	}
-	if len(c.Pkgs) == 0 {
+	if len(mod) == 0 {
 		return nil, fmt.Errorf("module %s not found under %s", modPath, repo)
 	}
+	// expansion of helper functions that the reference tree does not have (see inline.go); at most three rounds
+	if os.Getenv("FRUGALVET_NO_EXPAND") == "" {
+		overlay := map[string][]byte{}
+		readSrc := func(name string) []byte {
+			if b, ok := overlay[name]; ok {
+				return b
+			}
+			b, err := os.ReadFile(name)
+			if err != nil {
+				return nil
+			}
+			return b
+		}
+		for pass := 1; pass <= 4; pass++ {
+			ov, notes := expandHelpers(mod, pkgs[0].Fset, readSrc, pass)
+			if len(ov) == 0 {
+				break
+			}
+			next := map[string][]byte{}
+			for k, v := range overlay {
+				next[k] = v
+			}
+			for k, v := range ov {
+				next[k] = v
+			}
+			cfg2 := &packages.Config{Mode: packages.LoadAllSyntax, Dir: repo, Env: env, Tests: false, Overlay: next}
+			pkgs2, err2 := packages.Load(cfg2, "./...")
+			if err2 != nil || len(pkgs2) == 0 {
+				c.ExpandNotes = append(c.ExpandNotes, fmt.Sprintf("helper expansion abandoned in round %d: %v", pass, err2))
+				break
+			}
+			by2, mod2, errs2 := collect(pkgs2)
+			if len(errs2) > 0 || len(mod2) == 0 {
+				msg := ""
+				if len(errs2) > 0 {
+					msg = errs2[0]
+				}
+				c.ExpandNotes = append(c.ExpandNotes, fmt.Sprintf("helper expansion abandoned in round %d (the expanded program does not type-check: %s)", pass, msg))
+				break
+			}
+			pkgs, by, mod, overlay = pkgs2, by2, mod2, next
+			c.ExpandNotes = append(c.ExpandNotes, notes...)
+		}
+		for k, v := range overlay {
+			c.fileSrc[k] = v
+			if d := os.Getenv("FRUGALVET_DUMP_EXPAND"); d != "" {
+				_ = os.MkdirAll(d, 0o755)
+				_ = os.WriteFile(d+"/"+strings.ReplaceAll(strings.TrimPrefix(k, repo+"/"), "/", "_"), v, 0o644)
+			}
+		}
+	}
+	c.ByPath = by
+	c.Pkgs = mod
 	sort.Slice(c.Pkgs, func(i, j int) bool { return c.Pkgs[i].PkgPath < c.Pkgs[j].PkgPath })
 	c.Fset = pkgs[0].Fset
 	c.Sizes = types.SizesFor("gc", goarch)
@@ -686,7 +746,7 @@ func (c *Ctx) funcDecl(pkg, name string) (*ast.FuncDecl, *packages.Package) {
 
 // srcText returns the source text between two positions of one file.
 func (c *Ctx) srcText(pos, end token.Pos) string {
-	ps, pe := c.Fset.Position(pos), c.Fset.Position(end)
+	ps, pe := c.Fset.PositionFor(pos, false), c.Fset.PositionFor(end, false)
 	b, ok := c.fileSrc[ps.Filename]
 	if !ok {
 		b, _ = os.ReadFile(ps.Filename)
@@ -699,7 +759,7 @@ func (c *Ctx) srcText(pos, end token.Pos) string {
 }
 
 func (c *Ctx) srcLine(pos token.Pos) string {
-	ps := c.Fset.Position(pos)
+	ps := c.Fset.PositionFor(pos, false)
 	b, ok := c.fileSrc[ps.Filename]
 	if !ok {
 		b, _ = os.ReadFile(ps.Filename)
